@@ -139,6 +139,7 @@ type sim struct {
 	wDone    chan struct{}
 	blocked  bool
 	shadow   []protocol.Message // contents of realW
+	queuedAs []string           // canonical form of each queued message at the time it was queued
 	dead     bool
 	fastCap  bool
 	rttCfg   time.Duration
@@ -187,6 +188,9 @@ func (s *sim) collect() (out []protocol.Message, evs []peer.TorEvent) {
 		s.realW <- m
 	}
 	s.shadow = all
+	for _, m := range out {
+		s.queuedAs = append(s.queuedAs, wirecanon.Canon(m))
+	}
 	for len(s.torEv) > 0 {
 		evs = append(evs, <-s.torEv)
 	}
@@ -244,6 +248,33 @@ func (s *sim) predictK(measures bool) string {
 		return "inf"
 	}
 	return "0"
+}
+
+// The virtual clock: request time stamps are kept at (multiple of ageUnit) + ageEps before
+// now.  rebase() is called before and after every op, so the real time an op takes (up to
+// ageUnit/2) never accumulates in a stamp; every threshold the code compares ages with
+// (30 s; min(rto, 5 s) [+ 2 s]) is at least 2.5 s away from any age used, except where the
+// age is above the threshold by ageEps (real time can only add to it).
+const ageUnit = 10 * time.Second
+const ageEps = time.Millisecond
+
+func (s *sim) rebase() { s.p.VerifRebaseRequests(ageUnit, ageEps) }
+
+// drain takes up to k messages off the real queue and hands them to the oracle in queue order
+func (s *sim) drain(k int, cur []string) []protocol.Message {
+	var out []protocol.Message
+	for i := 0; i < k && len(s.realW) > 0; i++ {
+		m := <-s.realW
+		s.shadow = s.shadow[1:]
+		was := ""
+		if len(s.queuedAs) > 0 {
+			was = s.queuedAs[0]
+			s.queuedAs = s.queuedAs[1:]
+		}
+		s.o.onWire(m, was, cur)
+		out = append(out, m)
+	}
+	return out
 }
 
 func (s *sim) pinRate() {
@@ -312,13 +343,19 @@ func (s *sim) exec(ws []string, cur []string) (obs string, tag string) {
 			return bad, tag
 		}
 		switch ws[1] {
-		case "age":
-			s.p.VerifAge(time.Duration(v) * time.Millisecond)
-		case "drain":
-			for i := 0; i < int(v) && len(s.realW) > 0; i++ {
-				<-s.realW
-				s.shadow = s.shadow[1:]
+		case "age": // the virtual clock advances in multiples of ageUnit
+			if time.Duration(v)*time.Millisecond%ageUnit != 0 {
+				return bad, tag
 			}
+			s.rebase()
+			s.p.VerifAge(time.Duration(v) * time.Millisecond)
+			s.rebase()
+		case "drain":
+			// what the writer goroutine would put on the wire now: the message objects as they
+			// are at this moment (a message built from slices of the peer's state must not change
+			// while it waits in the queue)
+			drained := s.drain(int(v), cur)
+			return "ok out=[] drops=[] drained=[" + canonAll(drained) + "] " + s.digest(), tag
 		case "wblock":
 			if v == 1 {
 				s.p.VerifSetWriter(make(chan protocol.Message), closedCh)
@@ -382,8 +419,6 @@ func (s *sim) exec(ws []string, cur []string) (obs string, tag string) {
 			} else if l > 0 {
 				data = make([]byte, l)
 			}
-			// a strictly positive delay for the rtt measurement
-			s.p.VerifAge(time.Microsecond)
 			m = protocol.Piece{Index: uint32(i), Begin: uint32(b), Data: data}
 		case "ext0":
 			q, ok := num(2)
@@ -494,11 +529,13 @@ func (s *sim) exec(ws []string, cur []string) (obs string, tag string) {
 	}
 
 	s.pinRate()
+	s.rebase()
 	// a write on a really full queue costs 200 ms of wall time: bounded budget
 	if !s.blocked && len(s.realW) == cap(s.realW) {
 		*s.slowLeft--
 	}
 	pn := vhlib.Recover(run)
+	s.rebase()
 	if ws[0] == "m" && ws[1] == "piece" {
 		s.p.VerifSetRtt(s.rttCfg, 0)
 	}
